@@ -68,10 +68,12 @@ type BtcWallet struct {
 	// funding schedule
 	Layout []Out // honest shape: exactly one "good" entry = the requested output
 	NIn    int
+	InKind string // kind of the funding inputs: p2wkh (default), np2wkh (p2sh-p2wkh), p2pkh (legacy)
 	// prepared transaction (txprepare / FundPsbt)
 	prepared   *wire.MsgTx
 	prepValues []int64
 	prepKeys   []*btcec.PrivateKey
+	prepPrev   []*wire.MsgTx // legacy inputs: the previous transaction
 }
 
 func NewBtcWallet(r *rand.Rand) *BtcWallet {
@@ -136,13 +138,8 @@ func (w *BtcWallet) Fund(addr string, amount uint64) (*wire.MsgTx, *psbt.Packet,
 	if n < 1 {
 		n = 1
 	}
-	w.prepValues, w.prepKeys = nil, nil
+	w.prepValues, w.prepKeys, w.prepPrev = nil, nil, nil
 	for i := 0; i < n; i++ {
-		var prev chainhash.Hash
-		copy(prev[:], RandBytes(w.r, 32))
-		in := wire.NewTxIn(wire.NewOutPoint(&prev, uint32(w.r.Intn(4))), nil, nil)
-		in.Sequence = 0xfffffffd
-		tx.AddTxIn(in)
 		v := total / int64(n)
 		if i == n-1 {
 			v = total - (total/int64(n))*int64(n-1)
@@ -150,23 +147,79 @@ func (w *BtcWallet) Fund(addr string, amount uint64) (*wire.MsgTx, *psbt.Packet,
 		k, _ := w.newKeyAddr()
 		w.prepValues = append(w.prepValues, v)
 		w.prepKeys = append(w.prepKeys, k)
+		var prev chainhash.Hash
+		copy(prev[:], RandBytes(w.r, 32))
+		idx := uint32(w.r.Intn(4))
+		var prevTx *wire.MsgTx
+		if w.InKind == "p2pkh" {
+			// a legacy input is described in the PSBT by its whole previous transaction
+			prevTx = wire.NewMsgTx(2)
+			var pp chainhash.Hash
+			copy(pp[:], RandBytes(w.r, 32))
+			prevTx.AddTxIn(wire.NewTxIn(wire.NewOutPoint(&pp, 0), RandBytes(w.r, 107), nil))
+			for j := uint32(0); j < idx; j++ {
+				prevTx.AddTxOut(wire.NewTxOut(int64(1000+w.r.Intn(100000)), append([]byte{0x00, 0x14}, RandBytes(w.r, 20)...)))
+			}
+			prevTx.AddTxOut(wire.NewTxOut(v, w.inScript(i)))
+			prev = prevTx.TxHash()
+		}
+		w.prepPrev = append(w.prepPrev, prevTx)
+		in := wire.NewTxIn(wire.NewOutPoint(&prev, idx), nil, nil)
+		in.Sequence = 0xfffffffd
+		tx.AddTxIn(in)
 	}
 	pk, err := psbt.NewFromUnsignedTx(tx)
 	if err != nil {
 		return nil, nil, err
 	}
-	for i := range pk.Inputs {
-		pk.Inputs[i].WitnessUtxo = wire.NewTxOut(w.prepValues[i], w.inScript(i))
-	}
+	w.describeInputs(pk)
 	w.prepared = tx
 	return tx, pk, nil
 }
 
-func (w *BtcWallet) inScript(i int) []byte {
-	return append([]byte{0x00, 0x14}, btcutil.Hash160(w.prepKeys[i].PubKey().SerializeCompressed())...)
+func (w *BtcWallet) keyHash(i int) []byte {
+	return btcutil.Hash160(w.prepKeys[i].PubKey().SerializeCompressed())
 }
 
-// Sign signs the prepared transaction (real p2wpkh signatures) and returns it
+// witness program of input i's key (p2wkh script / nested redeem script)
+func (w *BtcWallet) wkhScript(i int) []byte { return append([]byte{0x00, 0x14}, w.keyHash(i)...) }
+
+// inScript is the script of the output that input i spends.
+func (w *BtcWallet) inScript(i int) []byte {
+	switch w.InKind {
+	case "np2wkh":
+		return append(append([]byte{txscript.OP_HASH160, 0x14}, btcutil.Hash160(w.wkhScript(i))...), txscript.OP_EQUAL)
+	case "p2pkh":
+		return append(append([]byte{txscript.OP_DUP, txscript.OP_HASH160, 0x14}, w.keyHash(i)...), txscript.OP_EQUALVERIFY, txscript.OP_CHECKSIG)
+	}
+	return w.wkhScript(i)
+}
+
+func (w *BtcWallet) describeInputs(pk *psbt.Packet) {
+	for i := range pk.Inputs {
+		switch w.InKind {
+		case "p2pkh":
+			pk.Inputs[i].NonWitnessUtxo = w.prepPrev[i]
+		case "np2wkh":
+			pk.Inputs[i].WitnessUtxo = wire.NewTxOut(w.prepValues[i], w.inScript(i))
+			pk.Inputs[i].RedeemScript = w.wkhScript(i)
+		default:
+			pk.Inputs[i].WitnessUtxo = wire.NewTxOut(w.prepValues[i], w.inScript(i))
+		}
+	}
+}
+
+func pushData(b []byte) []byte {
+	s, err := txscript.NewScriptBuilder().AddData(b).Script()
+	if err != nil {
+		panic(err)
+	}
+	return s
+}
+
+// Sign signs the prepared transaction with real signatures for the kind of its
+// inputs (nested and legacy inputs get a scriptSig, which changes the txid),
+// checks every input with the script engine, and returns the transaction
 // together with the finalized PSBT.
 func (w *BtcWallet) Sign() (*wire.MsgTx, *psbt.Packet, error) {
 	if w.prepared == nil {
@@ -179,23 +232,50 @@ func (w *BtcWallet) Sign() (*wire.MsgTx, *psbt.Packet, error) {
 	}
 	sh := txscript.NewTxSigHashes(tx, prev)
 	for i := range tx.TxIn {
-		wit, err := txscript.WitnessSignature(tx, sh, i, w.prepValues[i], w.inScript(i), txscript.SigHashAll, w.prepKeys[i], true)
-		if err != nil {
-			return nil, nil, err
+		switch w.InKind {
+		case "p2pkh":
+			ss, err := txscript.SignatureScript(tx, i, w.inScript(i), txscript.SigHashAll, w.prepKeys[i], true)
+			if err != nil {
+				return nil, nil, err
+			}
+			tx.TxIn[i].SignatureScript = ss
+		default:
+			wit, err := txscript.WitnessSignature(tx, sh, i, w.prepValues[i], w.wkhScript(i), txscript.SigHashAll, w.prepKeys[i], true)
+			if err != nil {
+				return nil, nil, err
+			}
+			tx.TxIn[i].Witness = wit
+			if w.InKind == "np2wkh" {
+				tx.TxIn[i].SignatureScript = pushData(w.wkhScript(i))
+			}
 		}
-		tx.TxIn[i].Witness = wit
+	}
+	sh = txscript.NewTxSigHashes(tx, prev)
+	for i := range tx.TxIn {
+		vm, err := txscript.NewEngine(w.inScript(i), tx, i, txscript.StandardVerifyFlags, nil, sh, w.prepValues[i], prev)
+		if err == nil {
+			err = vm.Execute()
+		}
+		if err != nil {
+			return nil, nil, errors.New("sim wallet produced an invalid signature: " + err.Error())
+		}
 	}
 	pk, err := psbt.NewFromUnsignedTx(w.prepared)
 	if err != nil {
 		return nil, nil, err
 	}
+	w.describeInputs(pk)
 	for i := range pk.Inputs {
-		pk.Inputs[i].WitnessUtxo = wire.NewTxOut(w.prepValues[i], w.inScript(i))
-		var b bytes.Buffer
-		if err := psbt.WriteTxWitness(&b, tx.TxIn[i].Witness); err != nil {
-			return nil, nil, err
+		if len(tx.TxIn[i].Witness) > 0 {
+			var b bytes.Buffer
+			if err := psbt.WriteTxWitness(&b, tx.TxIn[i].Witness); err != nil {
+				return nil, nil, err
+			}
+			pk.Inputs[i].FinalScriptWitness = b.Bytes()
 		}
-		pk.Inputs[i].FinalScriptWitness = b.Bytes()
+		if len(tx.TxIn[i].SignatureScript) > 0 {
+			pk.Inputs[i].FinalScriptSig = tx.TxIn[i].SignatureScript
+		}
 	}
 	return tx, pk, nil
 }
